@@ -12,6 +12,18 @@ pub fn read_and_advance<'a>(src: &'a [u8], length: usize, index: &mut usize) -> 
     result
 }
 
+/// Like [`read_and_advance`], but returns `None` instead of panicking if `src` is too short.
+pub fn try_read_and_advance<'a>(
+    src: &'a [u8],
+    length: usize,
+    index: &mut usize,
+) -> Option<&'a [u8]> {
+    let end = index.checked_add(length)?;
+    let result = src.get(*index..end)?;
+    *index = end;
+    Some(result)
+}
+
 #[cfg(test)]
 pub mod test_helper {
     use crate::{HashChain, Seed};
